@@ -51,6 +51,25 @@ Theorem c13_source_substeps : forall drift unit, ~ (unit == 0)%Q -> (0 < unit)%Q
 Proof. exact k_smearing_subsamples. Qed.
 Print Assumptions c13_source_substeps.
 
+(* the helper's bounding-box expressions of the CURRENT source (centre, width and sweep in channels, outward rounding, clamping) are the model's *)
+Theorem c13_source_box : forall f_start fmin df dt width drift (Tn : nat), (0 < df)%Q -> (1 <= Tn)%nat ->
+  let c0 := ((f_start - fmin) / df)%Q in
+  let w := (width / df)%Q in
+  let D := (drift * dt / df)%Q in
+  (src_px_start f_start fmin df == c0)%Q /\
+  (src_px_width_offset width df == 2 * Qabs w)%Q /\
+  (src_px_drift_offset drift dt df (Z.of_nat Tn) == D * inject_Z (sweep_steps Tn false))%Q /\
+  (src_px_drift_offset drift dt df (Z.of_nat Tn) + src_px_drift_smear_extra drift dt df == D * inject_Z (sweep_steps Tn true))%Q /\
+  (forall pdo pwo, (pwo == 2 * Qabs w)%Q ->
+     src_bounding_start_index c0 pdo pwo = box_lo c0 w pdo /\ src_bounding_stop_index c0 pdo pwo = box_hi c0 w pdo).
+Proof. exact k13_box. Qed.
+Print Assumptions c13_source_box.
+Theorem c13_source_clamp : forall start stop (Fn : nat),
+  Z.to_nat (src_bounding_min_index start (Z.of_nat Fn)) = Signal.clampZ start Fn /\
+  Z.to_nat (src_bounding_max_index stop (Z.of_nat Fn)) = Signal.clampZ stop Fn.
+Proof. exact k13_clamp. Qed.
+Print Assumptions c13_source_clamp.
+
 Example c13_example :
   (* width 0.4 channel, start 0.49 channel above channel 10, drift 0.1 ch/step over 4 rows: pixel (3,11) is in the box *)
   let c0 := 1049#100 in let w := 2#5 in let pdo := 3#10 in
